@@ -152,6 +152,37 @@ def _run_text(case, ctx, text):
             mon.events["completeness_checked"] += 1
         if len(probs) > 20:
             break
+    # latent anchoring is a post-processing step on what the search yields: with it switched on, the values HANDED TO it
+    # (observed at apply_postprocessing_rules, snapshot taken before the call) are, in order, exactly the values streamed with
+    # it switched off, with the same productions and scores; and neither the argument nor an earlier candidate changes later
+    # (anchoring in place would feed an already dated value back into the search, which is still running)
+    if not probs and not mon.missing:
+        for sname, depth, mk in (("constant", 0, lambda: L.scorer.DummyScorer()), ("shipped", 10, lambda: None), ("random2", 0, lambda: L.scorer.RandomScorer(random.Random(2)))):
+            try:
+                off = [(V.val(p.resolution), tuple(str(x) for x in p.production), repr(p.score))
+                       for p in L.ctparse_gen(text, ts=ts, timeout=0, max_stack_depth=depth, scorer=mk(), latent_time=False) if p is not None]
+                mon.begin()
+                mon.track_post = True
+                on = []
+                for p in L.ctparse_gen(text, ts=ts, timeout=0, max_stack_depth=depth, scorer=mk(), latent_time=True):
+                    if p is None:
+                        continue
+                    art, before, res = mon.post_log[-1]
+                    on.append((before[0], tuple(str(x) for x in p.production), repr(p.score)))
+                    mon.events["anchored_candidate_observed"] += 1
+                log = list(mon.post_log)
+            except Exception as e:  # noqa (C01's subject)
+                return {"st": "skip", "sig": "stream-raises:%s (C01)" % type(e).__name__, "key": key, "cls": "raises"}
+            finally:
+                mon.track_post = False
+            if on != off:
+                k = next((i for i, (a, b) in enumerate(zip(on, off)) if a != b), min(len(on), len(off)))
+                probs.append(("anchoring-changes-the-search", "[%s/d%d] latent on/off streams differ before anchoring at candidate %d: on %s, off %s (%d vs %d candidates)"
+                              % (sname, depth, k, on[k][:2] if k < len(on) else None, off[k][:2] if k < len(off) else None, len(on), len(off))))
+            for art, before, res in log:
+                if V.full(art) != before:
+                    probs.append(("anchoring-alters-its-argument", "[%s/d%d] the value handed to latent anchoring was %s and is now %s" % (sname, depth, before, V.full(art))))
+                    break
     if probs:
         tags = sorted(set(p[0] for p in probs))
         return C.viol(tags[0], "%r at %s: %d problems %s; first: %s" % (text, case["ts"], len(probs), tags[:4], probs[0][1][:500]), key, "derive")
@@ -161,7 +192,7 @@ def _run_text(case, ctx, text):
 
 
 def post_check(results, summaries, events, rules, tier):
-    need = ("closure_built", "candidate_observed", "production_replayed", "completeness_checked", "rule_arg_snapshot")
+    need = ("closure_built", "candidate_observed", "production_replayed", "completeness_checked", "rule_arg_snapshot", "anchored_candidate_observed")
     miss = [k for k in need if not events.get(k)]
     if miss:
         yield ("inconclusive", "events never observed: %s" % miss)
